@@ -111,12 +111,13 @@ theorem C17_stmts_DAGMutex_RLock : stmts_DAGMutex_RLock = [
   "mutex.RLock()",
   "end"] := by decide
 
-/-- DAGMutex.RUnlock (dagmutex.go:62): as the model has it. -/
+/-- DAGMutex.RUnlock (dagmutex.go): `runlockC` (lookup, registry untouched), the `RUnlock`s in argument order, then `runregA`/`runregC` — the unregistration comes last. -/
 theorem C17_stmts_DAGMutex_RUnlock : stmts_DAGMutex_RUnlock = [
   "func func(ids ...T)",
-  "range _,mutex:=d.unregisterMutexes(ids...)",
+  "range _,mutex:=d.lookupMutexes(ids...)",
   "mutex.RUnlock()",
-  "end"] := by decide
+  "end",
+  "d.unregisterMutexes(ids...)"] := by decide
 
 /-- DAGMutex.Lock (dagmutex.go:70): as the model has it. -/
 theorem C17_stmts_DAGMutex_Lock : stmts_DAGMutex_Lock = [
@@ -126,17 +127,17 @@ theorem C17_stmts_DAGMutex_Lock : stmts_DAGMutex_Lock = [
   "d.Mutex.Unlock()",
   "mutex.Lock()"] := by decide
 
-/-- DAGMutex.Unlock (dagmutex.go:82): as the model has it. -/
+/-- DAGMutex.Unlock (dagmutex.go): `unlockA`/`unlockC` = lookup under `d.Mutex`, released before the "too often" panic; `mutex.Unlock()` (a wrong mode panics here, registry untouched); then `unregA`/`unregC` through `unregisterMutexes(id)`. -/
 theorem C17_stmts_DAGMutex_Unlock : stmts_DAGMutex_Unlock = [
   "func func(id T)",
   "d.Mutex.Lock()",
-  "mutex := d.unregisterMutex(id)",
-  "if mutex == nil",
+  "mutex, mutexExists := d.mutexes.Get(id)",
   "d.Mutex.Unlock()",
-  "return",
+  "if !mutexExists",
+  "panic(ierrors.Errorf(\"called Unlock or RUnlock too often for entity with %v\", id))",
   "end",
-  "d.Mutex.Unlock()",
-  "mutex.Unlock()"] := by decide
+  "mutex.Unlock()",
+  "d.unregisterMutexes(id)"] := by decide
 
 /-- DAGMutex.registerMutexes (dagmutex.go:95): as the model has it. -/
 theorem C17_stmts_DAGMutex_registerMutexes : stmts_DAGMutex_registerMutexes = [
@@ -161,34 +162,45 @@ theorem C17_stmts_DAGMutex_registerMutex : stmts_DAGMutex_registerMutex = [
   "d.consumerCounter.Set(id, count+1)",
   "return mutex"] := by decide
 
-/-- DAGMutex.unregisterMutexes (dagmutex.go:119): `unregAll`/`unregPrefix`: one critical section, ids in argument order, nothing undone when a later id panics. -/
-theorem C17_stmts_DAGMutex_unregisterMutexes : stmts_DAGMutex_unregisterMutexes = [
+/-- DAGMutex.lookupMutexes (dagmutex.go): `lookAll`: one critical section, every id needs a mutex and `needed[id]` (occurrences so far, `seen.count x + 1`) at most `consumerCounter[id]`; nothing is written to the registry. -/
+theorem C17_stmts_DAGMutex_lookupMutexes : stmts_DAGMutex_lookupMutexes = [
   "func func(ids ...T) (mutexes []*StarvingMutex)",
   "d.Mutex.Lock()",
   "defer d.Mutex.Unlock()",
-  "mutexes = make([]*StarvingMutex, 0)",
-  "range _,id:=ids",
-  "if mutex := d.unregisterMutex(id); mutex != nil",
-  "mutexes = append(mutexes, mutex)",
+  "mutexes = make([]*StarvingMutex, len(ids))",
+  "needed := make(map[T]int, len(ids))",
+  "range i,id:=ids",
+  "mutex, mutexExists := d.mutexes.Get(id)",
+  "needed[id]++",
+  "if count, _ := d.consumerCounter.Get(id); !mutexExists || needed[id] > count",
+  "panic(ierrors.Errorf(\"called Unlock or RUnlock too often for entity with %v\", id))",
   "end",
+  "mutexes[i] = mutex",
   "end",
   "return mutexes"] := by decide
 
-/-- DAGMutex.unregisterMutex (dagmutex.go:133): `unregOne`: panic iff the entity has no mutex; the last consumer (`count == 1`) deletes both map entries; the mutex is returned in both cases. -/
+/-- DAGMutex.unregisterMutexes (dagmutex.go): `unregAll`/`unregPrefix`: one critical section, ids in argument order, nothing undone when a later id panics (unreachable after a successful lookup). -/
+theorem C17_stmts_DAGMutex_unregisterMutexes : stmts_DAGMutex_unregisterMutexes = [
+  "func func(ids ...T)",
+  "d.Mutex.Lock()",
+  "defer d.Mutex.Unlock()",
+  "range _,id:=ids",
+  "d.unregisterMutex(id)",
+  "end"] := by decide
+
+/-- DAGMutex.unregisterMutex (dagmutex.go): `unregOne`: panic iff the entity has no mutex; the last consumer (`count == 1`) deletes both map entries. -/
 theorem C17_stmts_DAGMutex_unregisterMutex : stmts_DAGMutex_unregisterMutex = [
-  "func func(id T) (mutex *StarvingMutex)",
-  "mutex, mutexExists := d.mutexes.Get(id)",
-  "if !mutexExists",
+  "func func(id T)",
+  "if !d.mutexes.Has(id)",
   "panic(ierrors.Errorf(\"called Unlock or RUnlock too often for entity with %v\", id))",
   "end",
   "if count, _ := d.consumerCounter.Get(id); count == 1",
   "d.consumerCounter.Delete(id)",
   "d.mutexes.Delete(id)",
-  "return mutex",
+  "return",
   "end",
   "count, _ := d.consumerCounter.Get(id)",
-  "d.consumerCounter.Set(id, count-1)",
-  "return mutex"] := by decide
+  "d.consumerCounter.Set(id, count-1)"] := by decide
 
 /-- NewCounter (counter.go:19): as the model has it. -/
 theorem C17_stmts_NewCounter : stmts_NewCounter = [
